@@ -1,0 +1,15 @@
+//go:build !verif
+
+package app
+
+import (
+	"context"
+
+	"github.com/yandex/mysync/internal/config"
+)
+
+func verifBaseContext(*config.Config) context.Context { return nil }
+
+func verifStateEnter(*config.Config, appState) {}
+
+func verifStateLeave(*config.Config, appState, appState) {}
